@@ -940,3 +940,120 @@ Proof.
   - intros x m _ E. cbn in E. discriminate.
   - intros x m. cbn. split; discriminate.
 Qed.
+
+(* ---------------------------------------------------------------------------------------- *)
+(* the final hypotheses: only the open findings remain                                       *)
+(* ---------------------------------------------------------------------------------------- *)
+
+Definition enum_resize_ok_f (s : state) (e : nat) : Prop :=
+  (forall x, In x (erefs s e) -> single_followers s x) /\ unshared s (erefs s e).
+
+Definition ok_op_f (s : state) (o : op) : Prop :=
+  match o with
+  | OAppend m x | OInsert m x _ => ~ attached s x                                        (* D20 *)
+  | OMuxInsert u x _ _ =>
+      ~ attached s x \/ (memb x (usigs s u) = true /\ forall L, In x (lay s L) -> exists g, L = LG u g)   (* D20 *)
+  | OSetType x _ | OSetEnum x _ => single_followers s x                                  (* D35 *)
+  | OAddValue e idx => emax s e < idx -> esize_of (emin s e) idx <> esize s e -> enum_resize_ok_f s e   (* D35, D36 *)
+  | OUpdateIndex v idx =>
+      forall e, vpar s v = Some e ->
+        esize_of (emin s e) (Z.max (Z.max 0 idx) (max_index s (lrem v (evals s e)))) <> esize s e ->
+        enum_resize_ok_f s e                                                              (* D35, D36 *)
+  | OSetMinSize e n => forall x, In x (erefs s e) -> attached s x -> esize_of n (emax s e) <= esize s e   (* D03 *)
+  | _ => True
+  end.
+
+Lemma ok_op_w_of_f : forall s o, InvA s -> InvM s -> InvR s -> ok_op_f s o -> ok_op_w s o.
+Proof.
+  intros s o HA H R Hf. destruct o; cbn [ok_op_f ok_op_w] in *; try exact Hf; try exact I.
+  - split; [apply link_top_of_inv; assumption|exact Hf].
+  - split; [apply link_top_of_inv; assumption|exact Hf].
+  - intros A B. destruct (Hf A B) as [S U]. split; [|exact U]. intros x Hx. split; [apply link_top_of_inv; assumption|apply S; exact Hx].
+  - intros e A B. destruct (Hf e A B) as [S U]. split; [|exact U]. intros x Hx. split; [apply link_top_of_inv; assumption|apply S; exact Hx].
+Qed.
+
+Fixpoint ok_hist_f_from (s : state) (ops : list op) : Prop :=
+  match ops with
+  | [] => True
+  | o :: r => ok_op_f s o /\ ok_hist_f_from (fst (step s o)) r
+  end.
+Definition ok_hist_f (ops : list op) : Prop := ok_hist_f_from init ops.
+
+Lemma inv3_from : forall ops s, InvA s -> InvM s -> InvR s -> ok_hist_f_from s ops ->
+  let s' := fold_left (fun s o => fst (step s o)) ops s in
+  InvA s' /\ InvM s' /\ InvR s' /\ ok_hist_w_from s ops.
+Proof.
+  induction ops as [|o r IH]; intros s HA H R Hh; cbn [fold_left ok_hist_w_from]; cbn zeta.
+  - split; [exact HA|split; [exact H|split; [exact R|exact I]]].
+  - destruct Hh as [Ho Hr]. pose proof (ok_op_w_of_f s o HA H R Ho) as Hw.
+    destruct (step_keeps_invariants s o HA H Hw) as [HA' H']. pose proof (invr_step s o HA H R Hw) as R'.
+    destruct (IH (fst (step s o)) HA' H' R' Hr) as (A & B & C & D). cbn zeta in *.
+    split; [exact A|split; [exact B|split; [exact C|split; [exact Hw|exact D]]]].
+Qed.
+
+Theorem inv3_reachable : forall ops, ok_hist_f ops -> InvA (run ops) /\ InvM (run ops) /\ InvR (run ops).
+Proof. intros ops Hh. destruct (inv3_from ops init inv_init invm_init invr_init Hh) as (A & B & C & _). split; [exact A|split; [exact B|exact C]]. Qed.
+
+Theorem ok_hist_w_of_f : forall ops, ok_hist_f ops -> ok_hist_w ops.
+Proof. intros ops Hh. apply (inv3_from ops init inv_init invm_init invr_init Hh). Qed.
+
+Theorem step_keeps_invariants3 : forall s o, InvA s -> InvM s -> InvR s -> ok_op_f s o ->
+  InvA (fst (step s o)) /\ InvM (fst (step s o)) /\ InvR (fst (step s o)).
+Proof.
+  intros s o HA H R Hf. pose proof (ok_op_w_of_f s o HA H R Hf) as Hw.
+  destruct (step_keeps_invariants s o HA H Hw) as [A B]. split; [exact A|split; [exact B|apply invr_step; assumption]].
+Qed.
+
+(* the owning message's view, over histories: the registry and the parent-message pointer of every
+   signal are exactly the layout tree of the message *)
+Theorem message_view_reachable : forall ops, ok_hist_f ops -> forall m x,
+  (memb x (gsigs (run ops) m) = true <-> in_tree (run ops) m x)
+  /\ (pmsg (run ops) x = Some m <-> in_tree (run ops) m x).
+Proof.
+  intros ops Hh m x. destruct (inv3_reachable ops Hh) as (HA & H & R).
+  pose proof (registry_is_tree (run ops) m x HA H R) as P. split; [exact P|]. rewrite <- (r_reg _ R). exact P.
+Qed.
+
+(* ---------------------------------------------------------------------------------------- *)
+(* the history-level statements under the final hypotheses                                   *)
+(* ---------------------------------------------------------------------------------------- *)
+
+Lemma layout_wf_f : forall ops, ok_hist_f ops -> forall m,
+  wf (8 * gbytes (run ops) m) (msg_view (run ops) m).
+Proof.
+  intros ops Hh m. destruct (inv3_reachable ops Hh) as (H & _ & _).
+  unfold msg_view. apply ok_wf. pose proof (a_ok _ H (LM m)) as Hok. cbn [lay lsz] in Hok.
+  rewrite (a_lsize _ H m) in Hok. replace (8 * gbytes (run ops) m) with (gbytes (run ops) m * 8) by lia. exact Hok.
+Qed.
+
+Lemma groups_wf_f : forall ops, ok_hist_f ops -> forall u g,
+  wf (mux_gsize (run ops) u) (group_view (run ops) u g).
+Proof.
+  intros ops Hh u g. destruct (inv3_reachable ops Hh) as (H & _ & _).
+  unfold group_view. apply ok_wf. exact (a_ok _ H (LG u g)).
+Qed.
+
+Lemma membership_fixed_f : forall ops, ok_hist_f ops -> forall u x, ufixed (run ops) u x = true ->
+  (forall g, (Z.of_nat g < mux_count (run ops) u) -> In x (gget (run ops) u g)) /\ ugids (run ops) u x = None.
+Proof. intros ops Hh. apply membership_fixed_w. apply ok_hist_w_of_f. exact Hh. Qed.
+Lemma membership_ids_f : forall ops, ok_hist_f ops -> forall u x ids, ugids (run ops) u x = Some ids ->
+  (forall g : nat, In x (gget (run ops) u g) <-> In (Z.of_nat g) ids)
+  /\ NoDup ids /\ ids <> [] /\ (forall g, In g ids -> 0 <= g < mux_count (run ops) u) /\ ufixed (run ops) u x = false.
+Proof. intros ops Hh. apply membership_ids_w. apply ok_hist_w_of_f. exact Hh. Qed.
+Lemma membership_cover_f : forall ops, ok_hist_f ops -> forall u g x, In x (gget (run ops) u g) ->
+  (ufixed (run ops) u x = true \/ ugids (run ops) u x <> None) /\ pmux (run ops) x = Some u.
+Proof. intros ops Hh. apply membership_cover_w. apply ok_hist_w_of_f. exact Hh. Qed.
+
+Lemma abs_start_bit_f : forall ops, ok_hist_f ops -> forall x u, pmux (run ops) x = Some u ->
+  start_bit (run ops) x = start_bit (run ops) u + selw (mux_count (run ops) u) + rel (run ops) x.
+Proof. intros ops Hh. apply abs_start_bit_full_proved. apply ok_hist_w_of_f. exact Hh. Qed.
+
+Lemma abs_start_bit_top_f : forall s x, pmux s x = None -> start_bit s x = rel s x.
+Proof. exact start_bit_top. Qed.
+
+(* variants of C01's per-step lemmas under the final hypotheses *)
+Lemma ok_op_of_f : forall s o, InvA s -> InvM s -> InvR s -> ok_op_f s o -> ok_op s o.
+Proof. intros s o HA H R Hf. apply ok_op_of_w; try assumption. apply ok_op_w_of_f; assumption. Qed.
+
+Lemma link_ok_of_inv : forall s x, InvA s -> InvM s -> InvR s -> link_ok s x.
+Proof. intros s x HA H R. apply link_ok_of_top; try assumption. apply link_top_of_inv; assumption. Qed.
